@@ -179,6 +179,30 @@ def concrete_checks(chk):
             if sorted(m3.nodes) != sorted(m1.nodes):
                 chk.violation(f"copy-true-vs-false:{name}", f"[{name}] copy=True and copy=False builds differ in their node sets", dict(reproduced=True, observed=dict(copy=sorted(m1.nodes), plain=sorted(m3.nodes))))
         chk.guarded(f"copy-true:{name}", f"[{name}] build_model(copy=True)", two)
+    # groups of a model built with copy=True (and of its deep copy): every member a group hands out is the MODEL's own variable / node
+    def groups_own(how):
+        m0 = fam["DistRegBuilder(np+p smooth)"]() if "DistRegBuilder(np+p smooth)" in fam else None
+        if m0 is None:
+            return []
+        nodes, vars_ = m0.pop_nodes_and_vars()
+        gb = lsl.GraphBuilder().add(*nodes.values(), *vars_.values())
+        m = gb.build_model(copy=True) if how == "copy=True" else copy.deepcopy(gb.build_model()) if how == "deepcopy" else gb.build_model()
+        pr = []
+        if not m.groups():
+            pr.append("the model lists no groups")
+        for gname, g in m.groups().items():
+            for key, member in g.nodes_and_vars.items():
+                own = any(member is v for v in m.vars.values()) or any(member is n for n in m.nodes.values())
+                if not own:
+                    pr.append(f"group {gname!r} member {key!r} is not one of the model's own variables / nodes")
+        return pr[:4]
+    for how in ("plain", "copy=True", "deepcopy"):
+        nm = f"groups of a model built {how}"
+        pr = chk.guarded(f"groups:{how}", f"[{nm}]", groups_own, how)
+        if pr:
+            chk.violation(f"groups:{how}", f"[{nm}] " + "; ".join(pr), dict(reproduced=True, observed=dict(problems=pr), note="concrete inspection"))
+        chk.enumerated.append(nm)
+
     # histories: nodes that were part of an earlier model (popped, or dropped without popping -- nodes hold only a weak reference to
     # their model) are rewired and built again; the new model's outputs must again be the exact inverse of its inputs
     def history(how, copy_flag):
